@@ -39,19 +39,37 @@ RAW_META_KEYS = {"htmlheader", "xhtmlheader", "htmlfooter"}
 
 
 def in_raw_meta_branch(f, n):
-    """Is n inside `if (strcmp(m->key, "<raw key>") == 0)`?"""
-    for a in f.ancestors(n):
-        if a["k"] != "IfStmt" or a["c"][1] is None or not any(x is n for x in walk(a["c"][1])):
-            continue
-        cond = strip(a["c"][0])
-        if cond is None or cond["k"] != "BinaryOperator" or cond["op"] != "==":
-            continue
-        call = strip(cond["c"][0])
-        if call is not None and call["k"] == "CallExpr" and call.get("callee") == "strcmp":
-            for x in call["c"][1:]:
+    """Is n only executed when `strcmp(m->key, "<raw key>") == 0` holds?  (then-branch of `== 0` / `!strcmp`, or
+    else-branch of `!= 0` / `strcmp(..)`)"""
+    def key_test(cond):
+        """(literal, sense) : sense True if the condition is true when the key equals the literal."""
+        c = strip(cond)
+        if c is None:
+            return None
+        if c["k"] == "UnaryOperator" and c["op"] == "!":
+            r = key_test(c["c"][0])
+            return None if r is None else (r[0], not r[1])
+        if c["k"] == "BinaryOperator" and c["op"] in ("==", "!=") and const_value(c["c"][1]) == 0:
+            r = key_test(c["c"][0])
+            if r is None:
+                return None
+            # strcmp(..) (sense False: true when different)  == 0 -> equal
+            return (r[0], (not r[1]) if c["op"] == "==" else r[1])
+        if c["k"] == "CallExpr" and c.get("callee") == "strcmp":
+            for x in c["c"][1:]:
                 sx = strip(x)
-                if sx is not None and sx["k"] == "StringLiteral" and sx.get("s") in RAW_META_KEYS:
-                    return sx["s"]
+                if sx is not None and sx["k"] == "StringLiteral":
+                    return (sx.get("s"), False)
+        return None
+    cur = n
+    for a in f.ancestors(n):
+        if a["k"] == "IfStmt":
+            in_then = a["c"][1] is not None and any(x is cur for x in walk(a["c"][1]))
+            in_else = len(a["c"]) > 2 and a["c"][2] is not None and any(x is cur for x in walk(a["c"][2]))
+            r = key_test(a["c"][0])
+            if r is not None and r[0] in RAW_META_KEYS and ((in_then and r[1]) or (in_else and not r[1])):
+                return r[0]
+        cur = a
     return None
 
 
